@@ -20,7 +20,7 @@ RULE = "instances = patience assignment paths, the renege scan arms, renege() pa
 
 def check(ctx):
     P = ctx.program
-    iters = (0, 1, 2) if ctx.tier == "thorough" else (0, 1)
+    iters = (0, 1)
     patience(ctx, P, iters)
     renege_scan(ctx, P)
     views = family_views(P, "Node")
